@@ -355,7 +355,8 @@ class C04(flow.Spec):
         "the for-all-schedules claim rests on the Lean protocol theorems (sequentially consistent interleavings) "
         "and on the bucket-disjointness theorems, not on these runs",
         "C++ memory model below sequential consistency is not covered (TSan run in the thorough tier as support)",
-        "insertion_sort() (property C03) and std::sort are taken by their specifications in the model",
+        "insertion_sort() is the model and theorem of property C03 (C03.insertionSort, LCP overload; its correspondence lives in C03); std::sort of the sample and the key sort inside insertion_sort_cache are taken by their specification (List.mergeSort)",
+        "the end-to-end theorems assume EnvOk: thresholds >= 1, 1 <= TreeBits <= 31, sample indices < n, no empty range sent to a parallel step; input strings NUL-free (C strings)",
         "object order inside a bucket, pivot and sample choice are abstracted (theorems quantify over them)",
         "32-bit key_type parameter sets are covered by the correspondence only",
     ]
